@@ -161,6 +161,7 @@ def shards(tier, seed):
 def run_shard(spec, ctx):
     r = random.Random(ctx.seed * 1000003 + 505 + spec['sub'])
     gen = D.Gen(r)
+    gen.zoneless = 0.3
     for i in range(spec['n']):
         form = FORMS[i % len(FORMS)]
         k = 1 if not form.startswith('array') else r.choice([0, 1, 2, 3])
